@@ -130,6 +130,14 @@ def gen_curve(rng, g, n):
             v, vc = c04.hostile_scalar(rng, g) if rng.randrange(2) else c11.hostile_k(rng, nn)
             if rng.randrange(8) == 0: u = 0; uc = "zero"
             if rng.randrange(8) == 0: v = 0; vc = "zero"
+            mu_ = c04.endo_mu(g)
+            if mu_ is not None and rng.randrange(5) == 0:
+                # multipliers whose endomorphism halves are degenerate: pure multiples of the eigenvalue (first half zero), equal
+                # halves, opposite halves
+                h = rng.choice([1, 2, 3, rng.getrandbits(64), rng.getrandbits(120)])
+                rel = rng.randrange(4)
+                u = [h * mu_, h + h * mu_, h - h * mu_, -h * mu_][rel] % nn
+                uc = ["endo-half0-zero", "endo-equal-halves", "endo-opposite-halves", "endo-half0-zero"][rel]
             P = g.rand_point(rng)
             d = pdesc(g, P, rng)
             exp = g.add(g.mul(u % nn, P), g.mulgen(v))
@@ -153,6 +161,15 @@ def gen_curve(rng, g, n):
             out.append(Case(lines, [e, e], ["%s:%s" % (g.name, c) for c in cl] + sorted(cl), "mul128_add_mulgen_vartime"))
         elif kind == "mul64mu":
             u0, u1 = hostile_u64(rng), hostile_u64(rng)
+            rel = rng.randrange(8)
+            if rel == 0:
+                u1 = u0; cl.add("mul64mu:equal-halves")
+            elif rel == 1:
+                u1 = 0; cl.add("mul64mu:u1=0")
+            elif rel == 2:
+                u0 = 0; cl.add("mul64mu:u0=0")
+            elif rel == 3:
+                u1 = (-u0) % (1 << 64); cl.add("mul64mu:opposite-halves")
             v, vc = c04.hostile_scalar(rng, g)
             P = g.rand_point(rng)
             d = pdesc(g, P, rng)
@@ -269,7 +286,8 @@ def main(argv):
         for c in ("ed25519", "ed448", "p256", "secp256k1", "ristretto255", "decaf448"):
             req += [c + ":vh:true", c + ":vh:false", c + ":vh:k=rational", c + ":vh:s-off-by-one", c + ":vh:k=naf-carry-out-of-top-window"]
         req += ["ed25519:vh:torsion-A-R", "ed448:vh:torsion-A-R", "jq255e:mul128:u>=2^128-64", "jq255s:mul128:u>=2^128-64",
-                "gls254:mul64mu:extreme-half"]
+                "gls254:mul64mu:extreme-half", "gls254:mul64mu:equal-halves", "gls254:mul64mu:u0=0", "gls254:mamv:u=endo-half0-zero", "jq255e:mamv:u=endo-half0-zero",
+                "secp256k1:mamv:u=endo-half0-zero", "gls254:mamv:u=endo-equal-halves"]
         rep.require(*req)
     except Inconclusive as e:
         rep.incon.append(str(e))
